@@ -30,6 +30,16 @@ func HookPoint(name string) {
 	x ^= x >> 31
 	x *= 0xbf58476d1ce4e5b9
 	x ^= x >> 29
+	if s.Plan.SlowWriter && name == "h2.relay.writer.beforeSend" {
+		// a slow destination: the 15-slot output channel of the relay fills up
+		if x%3 != 0 {
+			time.Sleep(time.Duration(200+x>>8%1800) * time.Microsecond)
+		}
+		return
+	}
+	if atomic.LoadInt32(&s.hookOn) == 2 {
+		return // only the slow writer was requested
+	}
 	if x%6 == 0 {
 		time.Sleep(time.Duration(x>>8%400) * time.Microsecond)
 	}
@@ -282,7 +292,11 @@ func (s *Session) applyChange(c Change) bool {
 		}
 		s.mu.Unlock()
 	}
-	e.sendSettings([]http2.Setting{{ID: c.ID, Val: c.Val}})
+	if c.Dup != nil && c.Lower && !c.NoDrain {
+		e.sendSettings([]http2.Setting{{ID: c.ID, Val: *c.Dup}, {ID: c.ID, Val: c.Val}})
+	} else {
+		e.sendSettings([]http2.Setting{{ID: c.ID, Val: c.Val}})
+	}
 	if !e.barrierRT("settings", "barrier") {
 		return false
 	}
@@ -366,7 +380,7 @@ func (e *endpoint) ample() bool {
 }
 
 // exact grants precisely the credit that is missing for the undelivered data.
-func (e *endpoint) exact() bool {
+func (e *endpoint) exact(streamsFirst bool) bool {
 	if !e.awaitKnown() {
 		return false
 	}
@@ -390,6 +404,9 @@ func (e *endpoint) exact() bool {
 		}
 	}
 	s.mu.Unlock()
+	if streamsFirst && len(gs) > 1 && gs[0].id == 0 {
+		gs = append(gs[1:], gs[0])
+	}
 	for _, x := range gs {
 		e.writeWU(x.id, uint32(x.inc))
 	}
@@ -434,6 +451,12 @@ func (e *endpoint) runControl(ph *Phase, phi int) {
 				return
 			}
 		}
+		if st.Act == "exact" {
+			if !e.exact(st.SF) {
+				return
+			}
+			continue
+		}
 		if st.Act == "connfit" {
 			e.wmu.Lock()
 			s.mu.Lock()
@@ -476,7 +499,7 @@ func (e *endpoint) runControl(ph *Phase, phi int) {
 	if !s.waitDep(func() bool { return p.done }) {
 		return
 	}
-	if ph.EndExact[e.idx] && !e.exact() {
+	if ph.EndExact[e.idx] && !e.exact(ph.ExactSF[e.idx]) {
 		return
 	}
 	if ph.EndAmple[e.idx] {
